@@ -223,6 +223,10 @@ fn add_dims(rng: &mut Rng, s: &mut Script, valid_premise: bool, allow_ignore: bo
     if (e == 0 || e == 1) && s.c("family") == 0 && rng.chance(1, 10) {
         add_prelude(rng, s, valid_premise);
     }
+    // the checksum may be requested explicitly (for a raw stream there is no trailer to read)
+    if e == 0 && rng.chance(1, 10) {
+        s.set("compute_adler", 1);
+    }
 }
 
 fn small_target(rng: &mut Rng, tier: Tier) -> usize {
